@@ -257,7 +257,9 @@ class SyncObj(object):
         self.__newAppendEntriesTime = 0
 
         self.__commandsWaitingCommit = collections.defaultdict(list)  # logID => [(termID, callback), ...]
-        self.__commandsLocalCounter = 0
+        # Request ids of forwarded commands start at a random value: an answer to a request of a previous
+        # incarnation of this node (same address) must not match a request of this process.
+        self.__commandsLocalCounter = struct.unpack('<Q', os.urandom(8))[0] >> 2
         self.__commandsWaitingReply = {}  # commandLocalCounter => callback
 
         self.__properies = set()
